@@ -69,8 +69,10 @@ def rollout_cases(chk, rng, n):
 
 
 def selector_cases(chk, rng, n):
+    from common import flit, llit, nlit
     from rl_blox.blox.mapb import DUCB
     from rl_blox.blox.multitask import DUCBGeneralized, RoundRobinSelector
+    exprs, recs = [], []
     for i in range(n):
         K = int(rng.integers(1, 6))
         tasks = np.arange(K)
@@ -97,6 +99,8 @@ def selector_cases(chk, rng, n):
                     pass
             if any(not 0 <= t < K for t in seq) or any(seq[j + 1] != (seq[j] + 1) % K for j in range(len(seq) - 1)):
                 chk.fail("C11:RoundRobinSelector:cycle", "round-robin selection is not a cycle over valid task ids", {"case": case, "sequence": seq})
+            exprs.append(f"(sl sn (M.rr_run {nlit(0)} {nlit(K)} {nlit(len(seq))}))")
+            recs.append(("RoundRobinSelector", case, seq, None))
         else:
             gamma, zeta, ub = float(rng.choice([0.5, 0.9, 0.95])), float(rng.choice([0.002, 0.1])), float(rng.choice([1.0, 10.0]))
             # (a) the bandit itself: initial round robin over 2K rewards, then arg-max of discounted mean + padding
@@ -126,6 +130,10 @@ def selector_cases(chk, rng, n):
                              "maximising discounted mean reward plus exploration bonus)", {"case": case, "round": t, "chosen": a, "expected": exp,
                                                                                            "history": list(zip(chosen, rewards))})
                     break
+                if margin > 1e-6:
+                    hist_l = llit(list(zip(chosen, rewards)), lambda e: f"({nlit(e[0])}, {flit(e[1])})")
+                    exprs.append(f"(sn (M.ducb_choose float_ops {flit(ub)} {flit(gamma)} {flit(zeta)} {nlit(K)} {hist_l}))")
+                    recs.append(("DUCB.choose_arm", case, a, list(zip(chosen, rewards))))
                 rwd = float(rng.integers(-4, 5)) / 4
                 chosen.append(a)
                 rewards.append(rwd)
@@ -154,6 +162,20 @@ def selector_cases(chk, rng, n):
                     pass
             if len(set(picked[: 4 * K])) != K:
                 chk.fail("C11:DUCBGeneralized:initial-rounds", "not every task was selected in the initial rounds", {"case": case, "selected": picked})
+    # the accepted / rejected call sequences of the selector base class against the extracted state machine
+    from rl_blox.blox.multitask import TaskSelector
+    for ops in (["s", "f", "s", "f"], ["s", "s"], ["f"], ["s", "f", "f"], ["s", "f", "s"], []):
+        sel, ok = TaskSelector(np.arange(2)), True
+        try:
+            for o in ops:
+                sel.select() if o == "s" else sel.feedback(0.0)
+        except AssertionError:
+            ok = False
+        exprs.append("(so sb (M.sel_run false " + llit(ops, lambda o: "M.OpSelect" if o == "s" else "M.OpFeedback") + "))")
+        recs.append(("TaskSelector", {"ops": ops}, sel.waiting_for_reward if ok else None, None))
+    for (what, case, impl, hist), m in zip(recs, chk.model_eval(exprs, per_file=100)):
+        if m != impl:
+            chk.disagree(what, {"case": case, "impl": impl, "model": m, "history": hist})
 
 
 def scheduler_cases(chk, rng, n):
